@@ -58,6 +58,54 @@ theorem print_parse_loss (fl : Flags) (c : Cfg) (x : Text) (toks : List Tok) (d 
   let ⟨t, a, b⟩ := print_parse_modulo_members fl c x toks d hnl hdesc hind hlex hparse
   ⟨t, a, b, print_ignores_member_descriptions c d⟩
 
+/-! ### "every indentation setting": the `indent` ARGUMENT of `ASTPrinter` / `print_ast`
+
+The theorems above quantify over every configuration `c` with `IndentOK c` (an indent STRING over {space, tab}).  The
+argument of the Python API is an int or a string; `mkCfg` is `ASTPrinter.__init__` (`indent * " "` for an int — the empty
+string for a negative one).  `print_parse_every_indent_arg` instantiates the statement for EVERY int and every string over
+{space, tab}; `indent_content_refuted` shows the restriction on strings is needed: any other character is content. -/
+
+/-- the admissible `indent` arguments: every int, and the strings over {space, tab} -/
+def IndentArgOK : IndentArg → Prop
+  | .width _ => True
+  | .str s => ∀ ch ∈ s, ch = 32 ∨ ch = 9
+
+/-- `indentOK_of_arg` — `ASTPrinter.__init__` turns every admissible argument into a layout-only indent string -/
+theorem indentOK_of_arg (ind : IndentArg) (desc : Bool) (h : IndentArgOK ind) : IndentOK (mkCfg ind desc) := by
+  intro ch hc
+  cases ind with
+  | width n => simp only [mkCfg, List.mem_replicate] at hc; exact Or.inl hc.2
+  | str s => exact h ch hc
+
+/-- **print_parse_every_indent_arg** — `print_parse` for every value of the `indent` argument: ALL ints (negative ones
+    print like 0) and all strings over {space, tab} -/
+theorem print_parse_every_indent_arg (fl : Flags) (ind : IndentArg) (hind : IndentArgOK ind) (x : Text) (toks : List Tok)
+    (d : Document) (hnl : fl.noLocation = true) (hlex : lexAll x = .ok toks) (hparse : parseDocument fl toks = .ok d)
+    (hm : ¬ HasMemberDescription d) :
+    ∃ toks', lexAll (printDocument (mkCfg ind) d) = .ok toks' ∧ parseDocument fl toks' = .ok d :=
+  print_parse fl (mkCfg ind) x toks d hnl rfl (indentOK_of_arg ind true hind) hlex hparse hm
+
+/-- … and the same for the statement modulo member descriptions and for stability -/
+theorem print_parse_loss_every_indent_arg (fl : Flags) (ind : IndentArg) (hind : IndentArgOK ind) (x : Text) (toks : List Tok)
+    (d : Document) (hnl : fl.noLocation = true) (hlex : lexAll x = .ok toks) (hparse : parseDocument fl toks = .ok d) :
+    ∃ toks', lexAll (printDocument (mkCfg ind) d) = .ok toks' ∧ parseDocument fl toks' = .ok (stripMemberDescriptions d) ∧
+      printDocument (mkCfg ind) (stripMemberDescriptions d) = printDocument (mkCfg ind) d :=
+  print_parse_loss fl (mkCfg ind) x toks d hnl rfl (indentOK_of_arg ind true hind) hlex hparse
+
+/-- `{a}` -/
+def fieldAText : Text := [123, 97, 125]
+
+/-- **indent_content_refuted** — the domain of "every indentation setting" cannot be larger: with the indent string `x`
+    the document `{a}` is printed as `{⏎xa⏎}⏎` and read back as the field `xa` -/
+theorem indent_content_refuted :
+    ∃ toks d, lexAll fieldAText = .ok toks ∧ parseDocument r4Flags toks = .ok d ∧
+      ∃ toks' d', lexAll (printDocument (mkCfg (.str [120])) d) = .ok toks' ∧ parseDocument r4Flags toks' = .ok d' ∧ d' ≠ d :=
+  ⟨_, _, rfl, rfl, _, _, rfl, rfl, fun h => absurd (congrArg (printDocument (mkCfg (.width 0))) h) (by decide)⟩
+
+example : IndentArgOK (.width (-3)) ∧ IndentArgOK (.width 0) ∧ IndentArgOK (.width 17) ∧ IndentArgOK (.str [32, 9, 32]) :=
+  ⟨trivial, trivial, trivial, by intro ch hc; simp at hc; rcases hc with h | h | h <;> simp [h]⟩
+example : (mkCfg (.width (-3))).indent = [] ∧ (mkCfg (.width 3)).indent = [32, 32, 32] := ⟨rfl, rfl⟩
+
 /-! ### non-vacuity -/
 
 /-- `enum E {A}`: accepted, no member description — the statement applies -/
